@@ -203,12 +203,18 @@ def run(rep, tier):
         clean = stimtext.circuit_text(strip_noise_and_annotations(body, names))
         try:
             out = svh.request('refsample', [rng.choice([64, 128, 256])], text)
-            rec, tree = out[0][4:], out[1][5:]
-            if rec != tree:
+            if len(out) < 3 or out[-1].startswith('ERR'):
+                rep.violation('ReferenceSampleTree::from_circuit_reference_sample', 'reject-valid', {'circuit': text},
+                              'computing the compressed reference sample failed: ' + (out[-1] if out else '')[:300])
+                out = None
+            rec, tree = (out[0][4:], out[1][5:]) if out else ('', '')
+            if out is None:
+                pass
+            elif rec != tree:
                 rep.violation('ReferenceSampleTree::from_circuit_reference_sample', 'wrong-result', {'circuit': text},
                               'decompressed compressed reference sample differs from the directly simulated reference sample', rec[:200], tree[:200])
-            tsize = int(out[2].split()[1])
-            if tsize != len(rec):
+            tsize = int(out[2].split()[1]) if out else 0
+            if out is not None and tsize != len(rec):
                 rep.violation('ReferenceSampleTree::size', 'wrong-result', {'circuit': text}, 'size() differs', len(rec), tsize)
         except core.Crash as e:
             rep.violation('ReferenceSampleTree::from_circuit_reference_sample', 'crash', {'circuit': text}, str(e) + e.stderr[-1000:])
